@@ -1,8 +1,13 @@
 #!/usr/bin/env python3
-"""seedrun.py <patch.diff> <Cxx> [<Cyy> ...] : apply a seeded change to /repo, run the named checks (quick), undo.
-Prints one line per check: DETECTED / MISSED and the VIOLATION lines."""
+"""seedrun.py <patch.diff> <Cxx> [<Cyy> ...] [quick|thorough] : apply a seeded change to /repo, run the named checks,
+undo.  Prints one line per check: DETECTED / MISSED and the VIOLATION lines.  The harness is built in a separate
+target directory (.build-seed) and the evidence files are restored afterwards, so a seeded run never leaves traces in
+what the registered checks use or commit."""
+import os
+import shutil
 import subprocess
 import sys
+import time
 
 patch, props = sys.argv[1], sys.argv[2:]
 tier = "quick"
@@ -16,13 +21,28 @@ r = subprocess.run(["git", "-C", "/repo", "apply", patch], capture_output=True, 
 if r.returncode:
     print("patch does not apply:", r.stderr)
     sys.exit(2)
+env = dict(os.environ)
+env["VERIF_BUILD_DIR"] = "/verif/.build-seed"
+shutil.rmtree("/verif/.evidence-save", ignore_errors=True)
+shutil.copytree("/verif/evidence", "/verif/.evidence-save")
 try:
     for p in props:
-        c = subprocess.run(["/verif/check", p, tier], capture_output=True, text=True, cwd="/verif")
+        t0 = time.time()
+        c = subprocess.run(["/verif/check", p, tier], capture_output=True, text=True, cwd="/verif", env=env)
         v = [l for l in c.stdout.splitlines() if l.startswith("VIOLATION")]
-        print(f"{p}: {'DETECTED' if c.returncode == 1 and v else 'MISSED'} rc={c.returncode} {len(v)} violation line(s)")
+        print(f"{p}: {'DETECTED' if c.returncode == 1 and v else 'MISSED'} rc={c.returncode} {len(v)} violation line(s) {time.time() - t0:.0f}s")
         for l in v[:3]:
             print("   ", l)
+            rp = l.split("replay=")[1].split(" ")[0]
+            try:
+                print("      ", open(rp).read()[:600].replace("\n", " "))
+            except OSError:
+                pass
         print("   ", c.stdout.splitlines()[-1] if c.stdout else c.stderr[-300:])
 finally:
     subprocess.run(["git", "-C", "/repo", "checkout", "--", "."])
+    shutil.rmtree("/verif/evidence")
+    shutil.copytree("/verif/.evidence-save", "/verif/evidence")
+    shutil.rmtree("/verif/.evidence-save", ignore_errors=True)
+    # bring the generated Lean files back to the unchanged tree
+    subprocess.run([sys.executable, "/verif/translator/translate.py"], capture_output=True)
